@@ -22,6 +22,9 @@ type prioRoles struct {
 
 	sendFn        *ssa.Function
 	sendPrioIdx   int // parameter of sendFn that becomes the Priority tag
+	sendTag       *Sym     // the Priority tag of the value sent, in terms of sendFn's parameters
+	sendStructIdx int      // when the tag is a field of a struct parameter: that parameter ...
+	sendTagPath   []string // ... and the field path to the tag
 	resetFn       *ssa.Function
 	safeDivideFn  *ssa.Function
 	sumFn         *ssa.Function          // plain sum of a distribution
@@ -141,7 +144,7 @@ func resolvePrioLight(p *Prog) (*prioRoles, error) {
 	if err != nil {
 		return nil, err
 	}
-	pr := &prioRoles{p: p, d: sr.d, rt: sr.rt, sr: sr, v1: p.Name == "v1", key: p.Name + ":priority.Discipline", sendPrioIdx: -1}
+	pr := &prioRoles{p: p, d: sr.d, rt: sr.rt, sr: sr, v1: p.Name == "v1", key: p.Name + ":priority.Discipline", sendPrioIdx: -1, sendStructIdx: -1}
 	for _, fn := range pr.rt.Funcs {
 		if isCheckedDivision(fn) {
 			pr.safeDivideFn = fn
@@ -153,12 +156,31 @@ func resolvePrioLight(p *Prog) (*prioRoles, error) {
 	return pr, nil
 }
 
+// sendKeyAt: the priority under which the call cs of the sending function sends its item.
+func (pr *prioRoles) sendKeyAt(cs ssa.CallInstruction) ssa.Value {
+	args := cs.Common().Args
+	if pr.sendPrioIdx >= 0 && pr.sendPrioIdx < len(args) {
+		return args[pr.sendPrioIdx]
+	}
+	if pr.sendStructIdx >= 0 && pr.sendStructIdx < len(args) {
+		s := pr.p.Sym(args[pr.sendStructIdx])
+		for _, f := range pr.sendTagPath {
+			s = symField(s, f)
+		}
+		if s != nil && s.V != nil {
+			return s.V
+		}
+		return args[pr.sendStructIdx]
+	}
+	return nil
+}
+
 func resolvePrio(p *Prog) (*prioRoles, error) {
 	sr, err := resolveSchedRoles(p)
 	if err != nil {
 		return nil, err
 	}
-	pr := &prioRoles{p: p, d: sr.d, rt: sr.rt, sr: sr, v1: p.Name == "v1", key: p.Name + ":priority.Discipline", sendPrioIdx: -1}
+	pr := &prioRoles{p: p, d: sr.d, rt: sr.rt, sr: sr, v1: p.Name == "v1", key: p.Name + ":priority.Discipline", sendPrioIdx: -1, sendStructIdx: -1}
 	pr.releaseRole = "field:feedback"
 	if pr.v1 {
 		pr.releaseRole = "field:opts.Feedback"
@@ -174,6 +196,14 @@ func resolvePrio(p *Prog) (*prioRoles, error) {
 				tag := symField(p.Sym(ss.Val), "Priority")
 				if par, ok := tag.V.(*ssa.Parameter); ok && tag.Op == "param" {
 					pr.sendPrioIdx = paramIndex(fn, par)
+					pr.sendTag = tag
+				} else if root, path, okp := tag.FieldPath(); okp && root.Op == "param" {
+					// the sending function takes the value to send (send(prioritized types.Prioritized[Type]))
+					if rp, isPar := root.V.(*ssa.Parameter); isPar {
+						pr.sendStructIdx = paramIndex(fn, rp)
+						pr.sendTagPath = path
+						pr.sendTag = tag
+					}
 				}
 			}
 		}
@@ -323,7 +353,7 @@ func resolvePrio(p *Prog) (*prioRoles, error) {
 			missing = append(missing, name)
 		}
 	}
-	if pr.sendPrioIdx < 0 {
+	if pr.sendTag == nil {
 		missing = append(missing, "priority parameter of the sending function")
 	}
 	if len(missing) > 0 {
